@@ -11,10 +11,15 @@ import (
 	"context"
 	"encoding/json"
 	"fmt"
+	"os"
+	"path/filepath"
 	"sort"
 	"strings"
 	"time"
 
+	"github.com/cenkalti/backoff/v4"
+
+	"github.com/restic/restic/internal/backend"
 	"github.com/restic/restic/internal/data"
 	"github.com/restic/restic/internal/restic"
 )
@@ -79,7 +84,7 @@ func engineC23(c *vctx) error {
 	c.Preamble("Import C23m.")
 	rng := c.rng.fork()
 	ctx := context.Background()
-	rounds := c.n(9, 120)
+	rounds := c.n(7, 100)
 	for r := 0; r < rounds; r++ {
 		e := newVenv(c, fmt.Sprintf("r%d", r%4))
 		if _, _, err := e.cli("init"); err != nil {
@@ -136,7 +141,11 @@ func engineC23(c *vctx) error {
 			case pk < 38:
 				n := []int{1, 2, 3, -1}[rng.intn(4)]
 				p.Last = n
-				args = append(args, "--keep-last", fmt.Sprint(n))
+				if n == -1 {
+					args = append(args, "--keep-last", "unlimited")
+				} else {
+					args = append(args, "--keep-last", fmt.Sprint(n))
+				}
 				kind = "keep-last"
 			case pk < 52:
 				n := 1 + rng.intn(3)
@@ -205,8 +214,26 @@ func engineC23(c *vctx) error {
 			default:
 				sel = before
 			}
+			// sometimes the backend refuses to remove some of the snapshot files
+			failSet := map[string]bool{}
+			var failT []string
+			if rng.chance(15) {
+				for _, b := range sel {
+					if rng.chance(40) {
+						failSet[b.id.String()] = true
+						failT = append(failT, coqN(uint64(name[b.id])))
+					}
+				}
+			}
+			e.rec.OnOp = func(o *vop) error {
+				if o.Op == "Remove" && o.Type == backend.SnapshotFile && failSet[o.Name] {
+					return backoff.Permanent(fmt.Errorf("verif: remove refused"))
+				}
+				return nil
+			}
 			now := time.Now()
 			stdout, _, cerr := e.cli(args...)
+			e.rec.OnOp = nil
 			after, lerr := c23List(ctx, e)
 			if lerr != nil {
 				return lerr
@@ -220,6 +247,8 @@ func engineC23(c *vctx) error {
 				rk = "RNoPolicy"
 			case strings.Contains(cerr.Error(), "--unsafe-allow-remove-all is not allowed unless"):
 				rk = "RUnsafeNeedsFilter"
+			case strings.Contains(cerr.Error(), "failed to remove one or more snapshots"):
+				rk = "RFailed"
 			default:
 				rk = "ROther"
 			}
@@ -264,8 +293,11 @@ func engineC23(c *vctx) error {
 				selT[i] = fmt.Sprintf("(mkS %s %s %s %s %s)", coqN(uint64(name[b.id])), c23Tm(b.sn.Time), coqStr(b.sn.Hostname), c23Strs(b.sn.Paths), c23Strs(b.sn.Tags))
 			}
 			polT := c23Policy(p)
-			optsT := fmt.Sprintf("(mkO %s (C24m.mkG %s %s %s) %s %s %s %s)", coqBool(idsMode), gb[1], gb[2], gb[3], polT, coqBool(unsafe), coqBool(filterEmpty), coqBool(dry))
-			term := fmt.Sprintf("mkCase %s %s %s %s %s %s %s", c23Tm(now), optsT, coqList(all), coqList(selT), rk, reported, coqList(aft))
+			optsT := fmt.Sprintf("(mkO %s (C24m.mkG %s %s %s) %s %s %s %s false)", coqBool(idsMode), gb[1], gb[2], gb[3], polT, coqBool(unsafe), coqBool(filterEmpty), coqBool(dry))
+			term := fmt.Sprintf("mkCase %s %s %s %s %s %s %s %s true", c23Tm(now), optsT, coqList(all), coqList(selT), coqList(failT), rk, reported, coqList(aft))
+			if len(failT) > 0 {
+				c.Hist("remove-refused")
+			}
 			if dry {
 				c.Hist("dry-run")
 			}
@@ -281,6 +313,130 @@ func engineC23(c *vctx) error {
 				fmt.Sprintf("snapshots=%d selected=%d cmd=%q -> %s deleted=%d reported=%s", len(before), len(sel), shorten(args[1:]), rk, len(before)-len(after), reported))
 		}
 	}
+	// ---- prune hand-off on repositories with real data
+	for r := 0; r < c.n(3, 24); r++ {
+		if err := c23Prune(c, rng, r); err != nil {
+			return err
+		}
+	}
+	return nil
+}
+
+// c23Prune: three real backups with disjoint data, `forget --keep-last k --prune` while the backend
+// refuses to remove some snapshot files; afterwards `restic check` must still find every remaining
+// snapshot intact (prune must not have treated a snapshot that is still there as removed).
+func c23Prune(c *vctx, rng *vrng, r int) error {
+	ctx := context.Background()
+	e := newVenv(c, fmt.Sprintf("p%d", r%3))
+	if _, _, err := e.cli("init"); err != nil {
+		return fmt.Errorf("init: %w", err)
+	}
+	src := filepath.Join(e.base, "src")
+	nsn := 3
+	for i := 0; i < nsn; i++ {
+		_ = os.RemoveAll(src)
+		_ = os.MkdirAll(src, 0o755)
+		if err := os.WriteFile(filepath.Join(src, fmt.Sprintf("f%d", i)), rng.bytes(3000+rng.intn(3000)), 0o644); err != nil {
+			return err
+		}
+		ts := time.Now().Add(-time.Duration(24*(30-i*3)) * time.Hour).UTC().Format("2006-01-02 15:04:05")
+		if _, _, err := e.cli("backup", src, "--host", "h1", "--time", ts); err != nil {
+			return fmt.Errorf("backup: %w", err)
+		}
+	}
+	before, err := c23List(ctx, e)
+	if err != nil {
+		return err
+	}
+	name := map[restic.ID]int{}
+	for i, b := range before {
+		name[b.id] = i
+	}
+	keep := 1 + rng.intn(2)
+	dry := rng.chance(20)
+	args := []string{"forget", "--json", "--prune", "--group-by", "", "--keep-last", fmt.Sprint(keep)}
+	if dry {
+		args = append(args, "--dry-run")
+	}
+	var p data.ExpirePolicy
+	p.Last = keep
+	// refuse the removal of some snapshot files (mostly old ones, which the policy wants to drop)
+	failSet := map[string]bool{}
+	var failT []string
+	mode := rng.intn(3) // 0: none, 1: one of them, 2: random subset
+	for _, b := range before {
+		if (mode == 1 && len(failT) == 0 && rng.bool()) || (mode == 2 && rng.bool()) {
+			failSet[b.id.String()] = true
+			failT = append(failT, coqN(uint64(name[b.id])))
+		}
+	}
+	e.rec.OnOp = func(o *vop) error {
+		if o.Op == "Remove" && o.Type == backend.SnapshotFile && failSet[o.Name] {
+			return backoff.Permanent(fmt.Errorf("verif: remove refused"))
+		}
+		return nil
+	}
+	now := time.Now()
+	stdout, _, cerr := e.cli(args...)
+	e.rec.OnOp = nil
+	after, err := c23List(ctx, e)
+	if err != nil {
+		return err
+	}
+	_, _, checkErr := e.cli("check")
+	rk := "ROk"
+	switch {
+	case cerr == nil:
+	case strings.Contains(cerr.Error(), "failed to remove one or more snapshots"):
+		rk = "RFailed"
+	case strings.Contains(cerr.Error(), "refusing to delete last snapshot"):
+		rk = "RGuard"
+	default:
+		rk = "ROther"
+	}
+	reported := "None"
+	var groups []struct {
+		Remove []struct {
+			ID string `json:"id"`
+		} `json:"remove"`
+	}
+	if i := strings.Index(stdout, "[{"); i >= 0 {
+		dec := json.NewDecoder(strings.NewReader(stdout[i:]))
+		if dec.Decode(&groups) == nil {
+			var ids []string
+			for _, g := range groups {
+				for _, rm := range g.Remove {
+					if id, err := restic.ParseID(rm.ID); err == nil {
+						if k, ok := name[id]; ok {
+							ids = append(ids, coqN(uint64(k)))
+							continue
+						}
+					}
+					ids = append(ids, coqN(9999))
+				}
+			}
+			reported = "(Some " + coqList(ids) + ")"
+		}
+	}
+	all := make([]string, len(before))
+	selT := make([]string, len(before))
+	for i, b := range before {
+		all[i] = coqN(uint64(i))
+		selT[i] = fmt.Sprintf("(mkS %s %s %s %s %s)", coqN(uint64(i)), c23Tm(b.sn.Time), coqStr(b.sn.Hostname), c23Strs(b.sn.Paths), c23Strs(b.sn.Tags))
+	}
+	var aft []string
+	for _, a := range after {
+		if k, ok := name[a.id]; ok {
+			aft = append(aft, coqN(uint64(k)))
+		} else {
+			aft = append(aft, coqN(9999))
+		}
+	}
+	optsT := fmt.Sprintf("(mkO false (C24m.mkG false false false) %s false true %s true)", c23Policy(p), coqBool(dry))
+	term := fmt.Sprintf("mkCase %s %s %s %s %s %s %s %s %s", c23Tm(now), optsT, coqList(all), coqList(selT), coqList(failT), rk, reported, coqList(aft), coqBool(checkErr == nil))
+	c.Hist("end=" + rk)
+	c.Case("prune-handoff", len(failT) > 0 && !dry, 20+len(failT), term,
+		fmt.Sprintf("3 real backups, cmd=%q remove-refused=%v -> %s deleted=%d reported=%s check-ok=%v", args[1:], failT, rk, len(before)-len(after), reported, checkErr == nil))
 	return nil
 }
 
